@@ -280,7 +280,7 @@ def _sos_prepass(alg, pre, goals, timeout_s, seed):
   return still, done
 
 
-def smt_prove(alg: Z3Alg, pre, goal, timeout_s=30, name='', use_cvc5=True, side=False, seed=0, abstract=False):
+def smt_prove(alg: Z3Alg, pre, goal, timeout_s=30, name='', use_cvc5=True, side=False, seed=0, abstract=False, split_first=False):
   """Valid(pre & alg.assume => goal)?  pre: list of z3 bools.  goal: z3 bool or list (conjunction).
   Returns Result: proved (unsat), refuted (sat + model as witness), undecided."""
   import z3
@@ -305,7 +305,7 @@ def smt_prove(alg: Z3Alg, pre, goal, timeout_s=30, name='', use_cvc5=True, side=
       return Result(PROVED, 'unsat (all %d clauses after abstraction of squared subterms by fresh reals)' % n_abs,
                     stats={'solver': 'z3 ' + z3.get_version_string(), 'queries': n_abs, 'clauses': pre_n, 'abstracted_clauses': n_abs})
   s = z3.Solver()
-  s.set('timeout', int(timeout_s * 1000))
+  s.set('timeout', int((min(timeout_s, 15) if (split_first and len(goals) > 1) else timeout_s) * 1000))
   s.set('random_seed', seed)
   for a in list(pre) + list(alg.assume):
     if isinstance(a, bool):
@@ -328,7 +328,7 @@ def smt_prove(alg: Z3Alg, pre, goal, timeout_s=30, name='', use_cvc5=True, side=
       wit[nm] = _model_value(m, v)
     return Result(REFUTED, 'sat', witness=wit, stats=stats, solver_output=str(m)[:4000])
   reason = s.reason_unknown()
-  if use_cvc5:
+  if use_cvc5 and not (split_first and len(goals) > 1):
     r2 = _cvc5(s.to_smt2(), timeout_s)
     stats['cvc5'] = r2
     if r2 == 'unsat':
